@@ -89,7 +89,37 @@ def one(ctx, kind, pts, opts, family):
                     if not (dd[real - 1] < dd[real] > dd[real + 1]):
                         ctx.fail('predicate', 'kneedle-result-is-a-strict-peak', site, case, dict(knee=real))
                     nontriv = (kind, pts.tobytes())
-    if kind == 'lmethod' and opts.get('mode') == 'none' and real not in ('loop', 'raised') and not orc.nonfinite:
+    if kind == 'lmethod' and real not in ('loop', 'raised') and not orc.nonfinite:
+        # the refinement rule restated with the package's own get_knee on the truncated curves
+        import kneeliverse.lmethod as lm
+        fit = {'pointfit': lm.Fit.point_fit, 'bestfit': lm.Fit.best_fit}[opts.get('fit', 'pointfit')]
+        x_, y_ = pts[:, 0], pts[:, 1]
+        last, cutoff, cur, done, it = -1, n, n, False, 0
+        mode, limit = opts.get('mode', 'adjusted'), opts.get('limit', 10)
+        while cur != last and not done and it < 4 * n + 16:
+            it += 1
+            last = cur
+            cur = int(lm.get_knee(x_[0:cutoff + 1], y_[0:cutoff + 1], fit)[0])
+            if mode == 'adjusted':
+                cutoff = max(limit, int((cur + last) / 2.0))
+            elif mode == 'original':
+                cutoff = max(limit, min(cur * 2, n))
+                done = cur >= last
+            else:
+                done = True
+        if it < 4 * n + 16 and cur != real:
+            ctx.fail('predicate', 'refinement-follows-its-rule(get_knee on the truncated curve)', site, case, dict(knee=real, expected=cur))
+    if kind == 'dfdt' and real not in ('loop', 'raised') and not orc.nonfinite:
+        import kneeliverse.dfdt as dfm, uts.gradient as grad, math as _m
+        g = grad.cfd(pts[:, 0], pts[:, 1])
+        knee_, cutoff, last = 0, 0, -1
+        while last < knee_ and (n - cutoff) > 2:
+            last = knee_
+            knee_ = int(dfm.get_knee_gradient(g[cutoff:])) + cutoff
+            cutoff = int(_m.ceil(knee_ / 2.0))
+        if knee_ != real:
+            ctx.fail('predicate', 'dfdt-refines-on-the-tail-beyond-half-the-knee-while-it-moves-right', site, case, dict(knee=real, expected=knee_))
+    if kind == 'lmethod' and real not in ('loop', 'raised') and not orc.nonfinite:
         # get_knee with both costs: first minimiser over 2..n-3
         import kneeliverse.lmethod as lm
         for cost in ('rmse', 'rss'):
